@@ -621,3 +621,76 @@ Theorem x_straggler_raises : forall x, closed x = false ->
 Proof.
   intros x H [s [Hs Ht]]. apply x_run_tail_raises_iff; [exact H|]. exists s. auto.
 Qed.
+
+(* ================================================================== failure propagation in networks of tag-grouping steps *)
+(* the heads a step read in the last round it fired, as the network state shows them *)
+Definition last_heads (win : list (list tok)) (st : nstate imap) (sp : tgspec) (x : sstate imap) : list tok :=
+  map (fun p => nth (rounds x - 1) (content imap win st p) (Term WAITING)) (t_ins sp).
+
+(* a terminated step either raised (FAILED) or terminated with _get_status(_reduce_statuses(values of its last round)) *)
+Definition term_explained (win : list (list tok)) (specs : list tgspec) (st : nstate imap) : Prop :=
+  forall i sp x s, nth_error specs i = Some sp -> nth_error st i = Some x -> sterm x = Some s ->
+    1 <= rounds x /\
+    (forall p, In p (t_ins sp) -> rounds x - 1 < length (content imap win st p)) /\
+    (s = FAILED \/ exists e, s = get_status (reduce_o (map tok_status (last_heads win st sp x))) e).
+
+Lemma term_explained_init win specs : term_explained win specs (tg_init specs).
+Proof.
+  intros i sp x s Hsp Hx Hs. unfold tg_init, init_state in Hx.
+  apply nth_error_In in Hx. apply in_map_iff in Hx. destruct Hx as [y [<- _]]. discriminate.
+Qed.
+
+Lemma term_explained_step win specs st i st' : term_explained win specs st ->
+  nstep imap tgspec t_ins tg_fire_spec win specs st i = Some st' -> term_explained win specs st'.
+Proof.
+  intros TE Hs. pose proof (nstep_grows imap tgspec t_ins tg_fire_spec win specs _ _ _ Hs) as G.
+  destruct (nstep_inv imap tgspec t_ins tg_fire_spec win specs _ _ _ Hs) as [sp [x [Hsp [Hx [He ->]]]]].
+  assert (Hi : i < length st) by (eapply nth_error_Some_lt; eauto).
+  intros k spk xk s Hspk Hxk Hsk. destruct (Nat.eq_dec i k) as [<-|Hne].
+  - rewrite nth_error_upd_same in Hxk by auto. inversion Hxk; subst xk. assert (spk = sp) by congruence. subst spk.
+    set (heads := map (fun p => nth (rounds x) (content imap win st p) (Term WAITING)) (t_ins sp)).
+    set (x1 := fired imap tgspec t_ins tg_fire_spec win st sp x) in *.
+    assert (Hr : rounds x1 = S (rounds x)).
+    { unfold x1, fired. destruct (tg_fire_spec sp (loc x) (souts x) _) as [[? ?] ?]. reflexivity. }
+    assert (Ht : sterm x1 = snd (tg_fire_spec sp (loc x) (souts x) heads)).
+    { unfold x1, fired. fold heads. destruct (tg_fire_spec sp (loc x) (souts x) heads) as [[? ?] ?]. reflexivity. }
+    assert (Hlt : forall p, In p (t_ins sp) -> rounds x < length (content imap win st p))
+      by (intros p Hp; eapply enabled_lt; eauto).
+    replace (rounds x1 - 1) with (rounds x) by lia. split; [lia|]. split.
+    + intros p Hp. destruct (ext_nth _ _ (rounds x) (Term WAITING) (G p) (Hlt p Hp)) as [E1 _]. exact E1.
+    + assert (Hsame : last_heads win (upd i x1 st) sp x1 = heads).
+      { unfold last_heads. replace (rounds x1 - 1) with (rounds x) by lia. unfold heads. apply map_ext_in.
+        intros p Hp. apply (ext_nth _ _ _ _ (G p)). apply Hlt. exact Hp. }
+      rewrite Hsame. rewrite Ht in Hsk. unfold tg_fire_spec, tg_fire in Hsk. destruct (existsb is_term heads).
+      * simpl in Hsk. inversion Hsk; subst. right. eexists. reflexivity.
+      * destruct (process_tags _ _ _ _ _ _) as [[m2 o2] b]. destruct b; simpl in Hsk; [inversion Hsk; left; reflexivity|discriminate].
+  - rewrite nth_error_upd_other in Hxk by auto.
+    destruct (TE k spk xk s Hspk Hxk Hsk) as [R1 [R2 R3]]. split; [exact R1|]. split.
+    + intros p Hp. destruct (ext_nth _ _ _ (Term WAITING) (G p) (R2 p Hp)) as [E1 _]. exact E1.
+    + destruct R3 as [R3|[e R3]]; [left; exact R3|right; exists e].
+      replace (last_heads win (upd i (fired imap tgspec t_ins tg_fire_spec win st sp x) st) spk xk) with (last_heads win st spk xk); [exact R3|].
+      unfold last_heads. apply map_ext_in. intros p Hp. symmetry. apply (ext_nth _ _ _ _ (G p)). apply R2. exact Hp.
+Qed.
+
+Lemma term_explained_exec win specs : forall ch st st', term_explained win specs st ->
+  exec imap tgspec t_ins tg_fire_spec win specs st ch = Some st' -> term_explained win specs st'.
+Proof.
+  induction ch as [|i r IH]; intros st st' TE H; simpl in H.
+  - inversion H; subst. exact TE.
+  - destruct (nstep imap tgspec t_ins tg_fire_spec win specs st i) as [st1|] eqn:Hs; [|discriminate].
+    eapply IH; [eapply term_explained_step; eauto|exact H].
+Qed.
+
+(* in EVERY reachable state of a network of Transformer / ConditionalStep rounds (any graph, any interleaving): a
+   terminated step that read a FAILED termination token in its last round, and no CANCELLED one, is FAILED *)
+Theorem tg_failed_propagates : forall win specs ch st i sp x s,
+  exec imap tgspec t_ins tg_fire_spec win specs (tg_init specs) ch = Some st ->
+  nth_error specs i = Some sp -> nth_error st i = Some x -> sterm x = Some s ->
+  In (Term FAILED) (last_heads win st sp x) ->
+  ~ In (Some CANCELLED) (map tok_status (last_heads win st sp x)) ->
+  s = FAILED.
+Proof.
+  intros win specs ch st i sp x s H Hsp Hx Hs Hin Hno.
+  destruct (term_explained_exec win specs ch _ _ (term_explained_init win specs) H i sp x s Hsp Hx Hs) as [_ [_ [R|[e R]]]];
+    [exact R|]. rewrite R. apply failed_round_status; assumption.
+Qed.
